@@ -1541,17 +1541,36 @@ class Cap(object):
 
             def carry(x, getter):
                 for t_ in refs:
-                    if all(getter(st) is not None and entails(st.cons, getter(st) - t_) for st in g):
-                        base.cons.append(Lin.sym(x) - t_)
-                    if all(getter(st) is not None and entails(st.cons, t_ - getter(st)) for st in g):
-                        base.cons.append(t_ - Lin.sym(x))
+                    for off in (1, 0):            # the strict bound first (x >= t + 1 / x <= t - 1), then the weak one
+                        if all(getter(st) is not None and entails(st.cons, getter(st) - t_ - off) for st in g):
+                            base.cons.append(Lin.sym(x) - t_ - off)
+                            break
+                    for off in (1, 0):
+                        if all(getter(st) is not None and entails(st.cons, t_ - getter(st) - off) for st in g):
+                            base.cons.append(t_ - Lin.sym(x) - off)
+                            break
+            merged_vars = []
             for d in list(base.env):
                 v = base.env[d]
                 if v[0] == "i" and any(st.env.get(d) != v for st in g[1:]):
                     x = fresh("mg")
                     base.env[d] = I(Lin.sym(x))
                     base.imprecise.add(x)
-                    carry(x, lambda st, d=d: st.env[d][1] if st.env.get(d) is not None and st.env[d][0] == "i" else None)
+                    getter = (lambda st, d=d: st.env[d][1] if st.env.get(d) is not None and st.env[d][0] == "i" else None)
+                    carry(x, getter)
+                    merged_vars.append((x, getter))
+            # order relations between two merged variables that hold in every merged state (first <= last, i <= j + 1 ...)
+            for i_ in range(len(merged_vars)):
+                for j_ in range(i_ + 1, min(len(merged_vars), i_ + 6)):
+                    (x1, g1), (x2, g2) = merged_vars[i_], merged_vars[j_]
+                    if any(g1(st) is None or g2(st) is None for st in g):
+                        continue
+                    for sign in (1, -1):
+                        for c_ in (1, 0, -1):
+                            # sign*(v1 - v2) - c >= 0 in every state?
+                            if all(entails(st.cons, (g1(st) - g2(st)).scale(sign) - c_) for st in g):
+                                base.cons.append((Lin.sym(x1) - Lin.sym(x2)).scale(sign) - c_)
+                                break
             for kx in list(base.heap):
                 v = base.heap[kx]
                 if isinstance(v, tuple) and v and v[0] == "i" and any(st.heap.get(kx) != v for st in g[1:]):
